@@ -37,6 +37,8 @@ func init() {
 				Edits: []Edit{{File: "transport/factory.go", Old: "\t\t\tcase StandardTransport:\n\t\t\t\ti, err = NewStandardTransport(sshArgs)", New: "\t\t\tcase StandardTransport:\n\t\t\t\ti, err = NewSystemTransport(sshArgs)"}}},
 			{ID: "C16-netconf-shell", Desc: "standard transport requests a shell for NETCONF sessions", Rule: "C16/factory",
 				Edits: []Edit{{File: "transport/standard.go", Old: "\terr = t.session.RequestSubsystem(\"netconf\")\n\n\treturn err", New: "\terr = t.session.Shell()\n\n\treturn err"}}},
+			{ID: "C16-close-waits-for-peer", Desc: "Standard.Close reaps the session before closing the client", Rule: "C16/close-no-wait",
+				Edits: []Edit{{File: "transport/standard.go", Old: "\t\tt.session = nil\n\t}\n\n\tif t.client != nil {", New: "\t\t_ = t.session.Wait()\n\n\t\tt.session = nil\n\t}\n\n\tif t.client != nil {"}}},
 			{ID: "C16-buffer-too-small", Desc: "telnet reads into a buffer smaller than requested", Rule: "C16/read-prefix",
 				Edits: []Edit{{File: "transport/telnet.go", Old: "\tb := make([]byte, n)\n\n\tn, err := t.c.Read(b)", New: "\tb := make([]byte, n/2)\n\n\tn, err := t.c.Read(b)"}}},
 		},
@@ -48,6 +50,7 @@ func runC16(c *Ctx, r *Report) {
 	r.Rule("C16/write-forward", "Write hands the caller's slice unchanged to the underlying writer and returns its error", 3)
 	r.Rule("C16/wrapper", "the Transport wrapper forwards the configured read size, the same slice and the implementation's results", 4)
 	r.Rule("C16/lock-shape", "implementation reads hold the read lock; the forced close does not; the channel's timeout edge is the forced one", 3)
+	r.Rule("C16/close-no-wait", "Close of each built-in transport calls no wait-for-peer API (Wait, Read, io.Copy ...): closing is what releases a blocked read", 3)
 	r.Rule("C16/factory", "each transport name constructs its own implementation; the NETCONF flag selects the subsystem and nothing else", 6)
 
 	for _, typ := range []string{"System", "Standard", "Telnet"} {
@@ -55,6 +58,7 @@ func runC16(c *Ctx, r *Report) {
 		checkWriteForward(c, r, typ)
 	}
 	checkTransportWrapper(c, r)
+	checkCloseNoWait(c, r)
 	// lock-shape: reuse the C07 analysis
 	sub := NewReport("C16")
 	checkCloseReachesTransport(c, sub)
